@@ -1,0 +1,52 @@
+//go:build verif
+
+package quotaresource
+
+import (
+	publictypes "lunar/engine/streams/public-types"
+	"sort"
+)
+
+// Exporting shims for the external verification harness (property C02).
+// Add-only, compiled only with the build tag "verif"; no behaviour of its own.
+
+// VerifC02GCTick runs exactly what the garbage-collection goroutine of a
+// concurrent quota runs on each wake-up. ok=false when q is not a concurrent quota.
+func VerifC02GCTick(q publictypes.QuotaResourceI) bool {
+	cs, ok := q.(*concurrentStrategy)
+	if !ok {
+		return false
+	}
+	cs.checkForExpiredRequests()
+	return true
+}
+
+// VerifC02Members returns a copy of the member set of a concurrent quota.
+func VerifC02Members(q publictypes.QuotaResourceI) ([]string, bool) {
+	cs, ok := q.(*concurrentStrategy)
+	if !ok {
+		return nil, false
+	}
+	members, err := cs.sharedContext.SMembers(cs.concurrentSetKey)
+	if err != nil {
+		return nil, false
+	}
+	return append([]string(nil), members...), true
+}
+
+// VerifC02Holders returns the sorted request ids that hold a status entry in
+// a concurrent quota.
+func VerifC02Holders(q publictypes.QuotaResourceI) ([]string, bool) {
+	cs, ok := q.(*concurrentStrategy)
+	if !ok {
+		return nil, false
+	}
+	cs.mutex.RLock()
+	defer cs.mutex.RUnlock()
+	out := make([]string, 0, len(cs.allowedReq))
+	for id := range cs.allowedReq {
+		out = append(out, id)
+	}
+	sort.Strings(out)
+	return out, true
+}
